@@ -70,8 +70,9 @@ inductive Slot | pckl | cpckl | pcklTmp | cpcklTmp
 inductive SaveMode | inPlace | atomicReplace
   deriving DecidableEq, Repr
 
-/-- `sweep`: `StorageInterface.delete` calls `_delete` whether or not `_has_saved_content` (proposed repair
-`fixes/C19-delete-sweeps-leftovers`); the tree as it is calls it only when a final-name file exists. -/
+/-- `sweep`: `StorageInterface.delete` reaches `_delete` when `_has_saved_content` OR an interrupted save left
+something behind (proposed repair `fixes/C19-delete-sweeps-leftovers`); the tree as it is reaches it only when a
+final-name file exists. -/
 structure Cfg where
   saveMode : SaveMode
   sweep    : Bool
@@ -197,18 +198,21 @@ def loadable (fs : FS) : Bool :=
   | .ok _ _ => true
   | _ => false
 
+/-- something an interrupted save left behind exists (`_has_leftovers` of the proposed delete repair) -/
+def hasLeftover (fs : FS) : Bool := fs.pcklTmp != .absent || fs.cpcklTmp != .absent
+
 /-- NOT the code: a `_has_saved_content` that also counts what an interrupted save left behind -/
-def hasSavedOrLeftover (fs : FS) : Bool := hasSaved fs || fs.pcklTmp != .absent || fs.cpcklTmp != .absent
+def hasSavedOrLeftover (fs : FS) : Bool := hasSaved fs || hasLeftover fs
 
 /-- `StorageInterface.delete` (+ `PickleStorage._delete`; the repaired variant also removes
-left-over temporaries): `_delete` is only reached when `_has_saved_content` (unless `cfg.sweep`) -/
+left-over temporaries): `_delete` is only reached when `_has_saved_content` (with `cfg.sweep`: or a leftover) -/
 def deleteSteps (m : SaveMode) : List Step :=
   match m with
   | .inPlace => [.unlink .pckl, .unlink .cpckl]
   | .atomicReplace => [.unlink .pckl, .unlink .pcklTmp, .unlink .cpckl, .unlink .cpcklTmp]
 
 def deleteFS (cfg : Cfg) (fs : FS) : FS :=
-  let fs1 := if cfg.sweep || hasSaved fs then runSteps fs (deleteSteps cfg.saveMode) else fs
+  let fs1 := if hasSaved fs || (cfg.sweep && hasLeftover fs) then runSteps fs (deleteSteps cfg.saveMode) else fs
   if fs1.dir && fs1.noFiles then { fs1 with dir := false } else fs1
 
 /-- the live node: its class and the version of the state it holds -/
